@@ -319,6 +319,9 @@ func c14Corpus() []*c14Bundle {
 		{Stream: "corpus:template-reserved", Files: []srcFile{{"corpus.soy", "{namespace corpus.c14}\n\n/** */\n{template .default}\nx{call .class /}\n{/template}\n/** */\n{template .class}\ny\n{/template}\n"}}},
 		mk("mapkey-proto", "/** */\n{template .t}\n{let $m: ['__proto__': 1, 'a': 2] /}{length(keys($m))}\n{/template}\n"),
 		mk("ij", "/** */\n{template .t}\n{$ij.foo}{$ij?.bar.baz}\n{/template}\n"),
+		mk("switch-two-defaults", "/** @param x */\n{template .t}\n{switch $x}{case 1}B{default}A{default}C{/switch}\n{/template}\n"),
+		mk("switch-default-first", "/** @param x */\n{template .t}\n{switch $x}{default}A{case 1, 2}B{/switch}\n{/template}\n"),
+		mk("switch-dup-case", "/** @param x */\n{template .t}\n{switch $x}{case 1}A{case 1}B{case 'a', 'a'}C{/switch}\n{/template}\n"),
 	}
 }
 
